@@ -95,6 +95,10 @@ package convert
 //@   ensures imp(result1 == nil, len(result0) == len(in) && forall(i, int, imp(0 <= i && i < len(result0), result0[i] != nil && wfIDOrAlias(result0[i].DataIDOrAlias))))
 //@   loop 1 invariant fresh(res) && len(res) == rangeindex + 1 && rangeindex < len(in)
 //@   loop 1 invariant forall(i, int, imp(0 <= i && i <= rangeindex, res[i] != nil && wfIDOrAlias(res[i].DataIDOrAlias)))
+// (alternative argument for the pre-sized form of the loop - `res := make(T, len(in))`, `res[i] = ...` -
+//  tried only when the first set does not prove the function)
+//@   loop 1 altinvariant fresh(res) && len(res) == len(in) && rangeindex < len(in)
+//@   loop 1 altinvariant forall(i, int, imp(0 <= i && i <= rangeindex, res[i] != nil && wfIDOrAlias(res[i].DataIDOrAlias)))
 
 //@ func toStreamChunk
 //@   props C12
@@ -189,6 +193,7 @@ package convert
 //@   props C11
 //@   ensures imp(result1 == nil, len(result0) == len(in))
 //@   loop 1 invariant fresh(res) && len(res) == rangeindex + 1 && rangeindex < len(in)
+//@   loop 1 altinvariant fresh(res) && len(res) == len(in) && rangeindex < len(in)
 
 // ---------------------------------------------------------------- C15: announced keepalive values
 // The connect request puts the interval and timeout on the wire in whole seconds (rounded down),
@@ -274,6 +279,7 @@ package convert
 //@   props C12 C11
 //@   ensures len(result) == len(in) && forall(i, int, imp(0 <= i && i < len(result), result[i] != nil && result[i].Name == in[i].Name && result[i].Type == in[i].Type))
 //@   loop 1 invariant fresh(res) && len(res) == rangeindex + 1 && rangeindex < len(in) && forall(i, int, imp(0 <= i && i < len(res), res[i] != nil && res[i].Name == in[i].Name && res[i].Type == in[i].Type))
+//@   loop 1 altinvariant fresh(res) && len(res) == len(in) && rangeindex < len(in) && forall(i, int, imp(0 <= i && i <= rangeindex, res[i] != nil && res[i].Name == in[i].Name && res[i].Type == in[i].Type))
 
 // the same for the upstream-info alias tables of downstream chunks and acks: no nil entry, exactly
 // the keys of the wire form (an entry without value decodes to an empty UpstreamInfo, which encodes
